@@ -186,7 +186,7 @@ def main():
             chk.violation(scn, '%s binding: %s' % (scn['binding'], p), {'case': case, 'problems': out['problems']})
         chk.sample({'scn': scn, 'problems': out['problems']}, limit=5)
     chk.cov['rule'] = ('scenarios of Bindings.tla: binding (Redirect, POST, SOAP/PAOS, Artifact) x message type x message text and RelayState '
-                      'over a 16-class alphabet (& = " \' < > %% + space newline ; # ? e-acute emoji) up to length %d x destination with / '
+                      'over a 30-class alphabet (& = " \' < > %% + space newline ; # ? e-acute emoji, escape look-alikes, template placeholders, backslash spellings, a 70 000-character run) up to length %d x destination with / '
                       'without a query x signed or not x leading XML declaration; wire read by urllib strict parse_qsl / html.parser / '
                       'xml.etree and by Entity.unravel / soap decoders' % (2 if thorough else 1))
     chk.assumptions = ['"for all strings" is covered by bounded enumeration over a character-class alphabet (see DESIGN section 10)',
